@@ -22,7 +22,7 @@ from fractions import Fraction as Fr
 from verifkit.absrun import Obj, Runner, StandIn
 from verifkit.core import Outcome
 from verifkit.known_names import is_new_helper
-from verifkit.finite import Undecided, Raised
+from verifkit.finite import Ev, Undecided, Raised
 from rules import C10, C17
 
 ASSUMPTIONS = ["pynurbs derivate_nonrational_bezier returns the exact single-step derivative matrix (trusted base)",
@@ -395,12 +395,16 @@ def r18_7(ctx):
     for name, want in (("closed_linspace", lambda n: tuple(Fr(k, n - 1) for k in range(n))),
                        ("open_linspace", lambda n: tuple(Fr(2 * k + 1, 2 * n) for k in range(n)))):
         fl = ctx.fn(f"curve.Math.{name}")
+        Ev.INT_DIV_IS_FLOAT = True           # the node count is an int: `k / n` is a float, `Fraction(k, n)` is not
         try:
-            bad = [n for n in range(2, 9) if tuple(Runner(ctx, set(), hook, asserts=True).call_fn(fl, [n])) != want(n)]
+            bad = [n for n in range(2, 9) if tuple(Runner(ctx, set(), hook, asserts=True).call_fn(fl, [n])) != want(n)
+                   or not all(isinstance(x, (int, Fr)) for x in Runner(ctx, set(), hook, asserts=True).call_fn(fl, [n]))]
             (out.bad if bad else out.ok)(fl.qname, f"nodes wrong for npts = {bad[:3]}" if bad else
                                          "exact rational nodes for npts = 2..8", where=fl.where())
         except (Undecided, Raised) as ex:
             out.undecided(fl.qname, str(ex), where=fl.where())
+        finally:
+            Ev.INT_DIV_IS_FLOAT = False
     return out
 
 
